@@ -26,6 +26,7 @@ import (
 	"regexp"
 	"regexp/syntax"
 	"runtime"
+	"runtime/debug"
 	"sort"
 	"strconv"
 	"strings"
@@ -48,6 +49,8 @@ import (
 )
 
 func main() {
+	// unbounded recursion dies as a stack overflow quickly instead of growing a 1 GB stack
+	debug.SetMaxStack(128 << 20)
 	if len(os.Args) < 2 {
 		fmt.Fprintln(os.Stderr, "usage: gxtool regex|consts|run|quote")
 		os.Exit(2)
@@ -217,13 +220,13 @@ func dumpConsts() {
 		wiring[fmt.Sprintf("params=%v,services=%v", fl[0], fl[1])] = steps
 	}
 	res["wiring"] = wiring
-	chain := func(id string) []any {
-		svc, err := cmd.VerifService(id)
-		if err != nil {
-			panic(err)
+	strategies := func(obj any) []any {
+		out := []any{}
+		sv, ok := obj.(interface{ VerifStrategies() []any })
+		if !ok {
+			return append(out, map[string]any{"type": fmt.Sprintf("!unexpected %T", obj)})
 		}
-		var out []any
-		for _, st := range svc.(interface{ VerifStrategies() []any }).VerifStrategies() {
+		for _, st := range sv.VerifStrategies() {
 			d := map[string]any{"type": fmt.Sprintf("%T", st)}
 			if f, ok := st.(interface{ VerifFixed() (string, string) }); ok {
 				id, v := f.VerifFixed()
@@ -233,9 +236,19 @@ func dumpConsts() {
 		}
 		return out
 	}
-	res["argResolver"] = chain("argResolver")
-	res["primitiveArgResolver"] = chain("primitiveArgResolver")
+	chain := func(id string) []any {
+		svc, err := cmd.VerifService(id)
+		if err != nil {
+			// the wiring no longer has this service: an empty chain makes the wiring tie fail instead of the translator
+			return []any{map[string]any{"type": "!missing service " + id}}
+		}
+		return strategies(svc)
+	}
 	res["tokenStrategyFactory"] = chain("tokenStrategyFactory")
+	// the chains are read from the objects the compile steps are wired with, not from services looked up by name
+	res["argResolver"] = []any{map[string]any{"type": "!no StepCompileServices"}}
+	res["primitiveArgResolver"] = []any{map[string]any{"type": "!no StepCompileParams"}}
+	res["decoratorArgResolver"] = []any{map[string]any{"type": "!no StepCompileDecorators"}}
 	{
 		svc, err := cmd.VerifService("compiler")
 		if err != nil {
@@ -244,12 +257,22 @@ func dumpConsts() {
 		var out []any
 		for _, st := range svc.(interface{ VerifSteps() []any }).VerifSteps() {
 			out = append(out, fmt.Sprintf("%T", st))
+			tn := fmt.Sprintf("%T", st)
+			switch {
+			case strings.HasSuffix(tn, "StepCompileParams"):
+				r := st.(interface{ VerifResolver() any }).VerifResolver()
+				if in, ok := r.(interface{ VerifInner() any }); ok {
+					res["primitiveArgResolver"] = strategies(in.VerifInner())
+				} else {
+					res["primitiveArgResolver"] = []any{map[string]any{"type": fmt.Sprintf("!unexpected %T", r)}}
+				}
+			case strings.HasSuffix(tn, "StepCompileServices"):
+				res["argResolver"] = strategies(st.(interface{ VerifArgResolver() any }).VerifArgResolver())
+			case strings.HasSuffix(tn, "StepCompileDecorators"):
+				res["decoratorArgResolver"] = strategies(st.(interface{ VerifArgResolver() any }).VerifArgResolver())
+			}
 		}
 		res["compilerSteps"] = out
-	}
-	{
-		// which resolver the param resolver wraps: ResolveParam must go through primitiveArgResolver
-		res["paramResolverNote"] = "paramResolver wraps the service primitiveArgResolver (gontainer_resolvers.yaml); its chain is dumped above"
 	}
 	enc := json.NewEncoder(os.Stdout)
 	enc.SetEscapeHTML(false)
@@ -637,9 +660,26 @@ func runCases(tmpbase string) {
 			_ = enc.Encode(map[string]any{"harness_error": err.Error()})
 			continue
 		}
-		_ = enc.Encode(runOne(tmpbase, c))
+		// watchdog: a case that does not finish is reported as a hang and ends this process (the goroutine cannot be stopped)
+		done := make(chan map[string]any, 1)
+		go func() { done <- runOne(tmpbase, c) }()
+		select {
+		case r := <-done:
+			_ = enc.Encode(r)
+		case <-time.After(caseTimeout()):
+			_ = enc.Encode(map[string]any{"id": c.ID, "hang": true, "seconds": caseTimeout().Seconds()})
+			w.Flush()
+			os.Exit(3)
+		}
 		w.Flush()
 	}
+}
+
+func caseTimeout() time.Duration {
+	if v, err := strconv.Atoi(os.Getenv("GX_CASE_TIMEOUT")); err == nil && v > 0 {
+		return time.Duration(v) * time.Second
+	}
+	return 30 * time.Second
 }
 
 // ---------------------------------------------------------------------------------------------- fuzz
